@@ -178,6 +178,11 @@ def _canon(e):
         if isinstance(c, tuple) and c and c[0] == "not":
             return ("ite", c[1], b, a)
         return ("ite", c, a, b)
+    if t == "comp" and len(e) == 5 and e[1] == "dict" and not e[4]:
+        v, it = e[2], e[3]
+        if (isinstance(v, tuple) and len(v) == 3 and v[0] == "tuple" and all(isinstance(x, tuple) and len(x) == 3 and x[0] == "item" for x in v[1:]) and v[1][2] == 0 and v[2][2] == 1
+                and v[1][1] == v[2][1] and isinstance(v[1][1], tuple) and v[1][1][0] == "elem" and v[1][1][1] == it):
+            return ("call", "dict", (canon(it),), ())  # {k: v for k, v in pairs} is dict(pairs)
     if t == "isnan_ne":
         return ("isnan", canon(e[1]))
     if t == "isnone" and len(e) == 2 and isinstance(e[1], tuple) and e[1]:
@@ -495,10 +500,14 @@ def _entails(guard, lit):
         return True
     a, pol = lit
     if isinstance(a, tuple) and a:
-        if a[0] == "or" and pol:
-            return any(_entails(g, (x, True)) if not (isinstance(x, tuple) and x and x[0] == "not") else _entails(g, (x[1], False)) for x in a[1:])
-        if a[0] == "and" and not pol:
-            return any(_entails(g, (x, False)) if not (isinstance(x, tuple) and x and x[0] == "not") else _entails(g, (x[1], True)) for x in a[1:])
+        if a[0] == "not" and len(a) == 2:
+            return _entails(g, (a[1], not pol))
+        if a[0] == "bool":
+            return a[1] is pol
+        if (a[0] == "or" and pol) or (a[0] == "and" and not pol):
+            return any(_entails(g, (x, pol)) for x in a[1:])
+        if (a[0] == "and" and pol) or (a[0] == "or" and not pol):
+            return all(_entails(g, (x, pol)) for x in a[1:])
         if a[0] == "cmp" and a[1] == "<=" and pol:
             # d <= 0 is entailed by d < 0
             if (("cmp", "<", a[2]), True) in g:
